@@ -39,6 +39,8 @@ import (
 	"github.com/prometheus/prometheus/storage"
 	"github.com/prometheus/prometheus/storage/remote"
 	"github.com/prometheus/prometheus/tsdb/chunkenc"
+	"github.com/prometheus/prometheus/tsdb/chunks"
+	"github.com/prometheus/prometheus/util/annotations"
 
 	"verif/harness/internal/gallina"
 	"verif/harness/internal/gen"
@@ -161,6 +163,31 @@ func digestFH(x *histogram.FloatHistogram) uint64 {
 	return h.Sum64()
 }
 
+// clientResH / clientResFH: a histogram at a reserved higher resolution (schema 9..52) is
+// compared in the form a Prometheus reader has to bring it to: reduced to schema 8
+// (histogram.ReduceResolution is the oracle; the digests the model sees are taken after it).
+// Everything the remote-read client hands out must already be in that form, so on the client
+// side this is the identity; it matters for the direct query on a foreign serving storage.
+func clientResH(h *histogram.Histogram) *histogram.Histogram {
+	if h.Schema > histogram.ExponentialSchemaMax && h.Schema <= histogram.ExponentialSchemaMaxReserved {
+		h = h.Copy()
+		if err := h.ReduceResolution(histogram.ExponentialSchemaMax); err != nil {
+			panic(err)
+		}
+	}
+	return h
+}
+
+func clientResFH(h *histogram.FloatHistogram) *histogram.FloatHistogram {
+	if h.Schema > histogram.ExponentialSchemaMax && h.Schema <= histogram.ExponentialSchemaMaxReserved {
+		h = h.Copy()
+		if err := h.ReduceResolution(histogram.ExponentialSchemaMax); err != nil {
+			panic(err)
+		}
+	}
+	return h
+}
+
 // drain reads a sample iterator to its end.
 func drain(it chunkenc.Iterator) ([]smp, error) {
 	var out []smp
@@ -171,10 +198,10 @@ func drain(it chunkenc.Iterator) ([]smp, error) {
 			out = append(out, smp{t, 0, math.Float64bits(v)})
 		case chunkenc.ValHistogram:
 			t, h := it.AtHistogram(nil)
-			out = append(out, smp{t, 1, digestH(h)})
+			out = append(out, smp{t, 1, digestH(clientResH(h))})
 		case chunkenc.ValFloatHistogram:
 			t, h := it.AtFloatHistogram(nil)
-			out = append(out, smp{t, 2, digestFH(h)})
+			out = append(out, smp{t, 2, digestFH(clientResFH(h))})
 		default:
 			return out, fmt.Errorf("value type %v", vt)
 		}
@@ -486,6 +513,44 @@ func (r *rig) read(c remote.ReadClient, q *prompb.Query, sortSeries bool) obs {
 	return r.readSet(ss)
 }
 
+// probeFresh runs each (skip, t) probe on the series of a response of its own: the iterator the
+// probe uses is the first one ever taken from that series object.
+func (r *rig) probeFresh(c remote.ReadClient, q *prompb.Query, sortSeries bool, o *obs, probes [][2]int64, record bool) {
+	if o.Kind != "ok" {
+		return
+	}
+	for _, p := range probes {
+		ss, err := c.Read(context.Background(), q, sortSeries)
+		if err != nil {
+			o.Seek = append(o.Seek, "fresh Read: "+err.Error())
+			return
+		}
+		j := 0
+		for ss.Next() {
+			if j >= len(o.L) {
+				o.Seek = append(o.Seek, "fresh Read: more series than before")
+				break
+			}
+			sm := o.L[j].S
+			skip := int(p[0])
+			if skip > len(sm) {
+				skip = len(sm)
+			}
+			e, got, none := seekRun(ss.At(), sm, skip, p[1])
+			if e != "" {
+				o.Seek = append(o.Seek, e)
+			}
+			if record && (len(o.Probes) < 40 || e != "") {
+				o.Probes = append(o.Probes, probeRec{All: sm, Skip: skip, T: p[1], Got: got, None: none})
+			}
+			j++
+		}
+		if ss.Err() != nil {
+			o.Seek = append(o.Seek, "fresh Read: "+ss.Err().Error())
+		}
+	}
+}
+
 // readSet drains a client-side series set (with Seek probes when probeRand is set).
 func (r *rig) readSet(ss storage.SeriesSet) obs {
 	var err error
@@ -612,6 +677,8 @@ func (r *rig) rawFrames(q *prompb.Query) ([]cser, error) {
 
 type store struct {
 	db    *tsdbx.DB
+	qa    storage.SampleAndChunkQueryable // the serving storage: db.DB, or a mockQueryable (db == nil)
+	hv    map[int]bool                    // genHist variants of the stored histogram series
 	desc  string
 	times []int64 // every stored timestamp, sorted
 	names []string
@@ -648,6 +715,21 @@ func genHist(k int, i int64, variant int) (*histogram.Histogram, *histogram.Floa
 		h.Schema = -2
 		h.NegativeSpans, h.NegativeBuckets = nil, nil
 		h.Count = 7 + uint64(i*5)
+	case 4:
+		h.Schema = -4 // histogram.ExponentialSchemaMin
+	case 5:
+		h.Schema = 0
+	case 6:
+		h.Schema = 3
+	case 7:
+		h.Schema = histogram.ExponentialSchemaMax // 8: the boundary of the resolution-reduction slow path
+	default:
+		// 9..52: reserved higher resolutions; the TSDB refuses them, only a foreign serving
+		// storage (mockQueryable) can send them, and every decoder on the client side must
+		// reduce them to schema 8
+		if variant >= 9 && variant <= int(histogram.ExponentialSchemaMaxReserved) {
+			h.Schema = int32(variant)
+		}
 	}
 	if k == 1 {
 		return h, nil
@@ -688,7 +770,14 @@ func openStore(dir string, r *gen.Rand) (*store, error) {
 		seen[l.String()] = true
 		mode := r.Intn(6) // 0,1 float; 2 hist; 3 float hist; 4 mixed runs; 5 float with special values
 		kinds = append(kinds, fmt.Sprint(mode))
-		variant := r.Intn(4)
+		variant := r.Intn(8)
+		if mode >= 2 && mode <= 4 {
+			if st.hv == nil {
+				st.hv = map[int]bool{}
+			}
+			st.hv[variant] = true
+		}
+		// see genHist: schemas 1, custom, gauge, -2, -4, 0, 3, 8
 		n := int(r.Range(0, 14))
 		if r.Chance(1, 4) {
 			n = int(r.Range(15, 30))
@@ -1026,6 +1115,38 @@ func runCorpus(f gallina.Flags, meta *gallina.Meta, cf *gallina.CaseFile, rg *ri
 	fx = append(fx, fixed{"corpus: one series float@10 hist@20 float@30 floathist@40", 120, mixedSamples, []qparams{
 		{name: "seek-noop-mixed-series", mint: 0, maxt: 100, ms: all, maxBytes: 1 << 20, probes: [][2]int64{{1, 10}, {0, 20}, {2, 25}}},
 	}})
+	// every histogram schema class, integer (m0) and float (m1) histograms, through both
+	// response types, Next and Seek: -4, 0, 3, 8 (= ExponentialSchemaMax, the boundary of the
+	// client's resolution-reduction path) and custom buckets in a TSDB ...
+	schemaSeries := func(variants []int) []pend {
+		var out []pend
+		combos := [][2]string{{"a", ""}, {"b", ""}, {"c", ""}, {"a", "0"}, {"b", "0"}, {"c", "0"}}
+		for k := 1; k <= 2; k++ {
+			for vi, v := range variants {
+				b := labels.NewBuilder(labels.EmptyLabels())
+				b.Set("__name__", []string{"", "m0", "m1"}[k])
+				b.Set("job", combos[vi][0])
+				if combos[vi][1] != "" {
+					b.Set("inst", combos[vi][1])
+				}
+				l := b.Labels()
+				for j := int64(0); j < 4; j++ {
+					i := j
+					if j == 2 {
+						i = 0 // a counter reset
+					}
+					out = append(out, pend{l: l, t: 100 + 10*j + int64(vi), k: k, i: i | int64(v)<<32})
+				}
+			}
+		}
+		sort.SliceStable(out, func(i, j int) bool { return out[i].t < out[j].t })
+		return out
+	}
+	schemaProbes := [][2]int64{{0, 110}, {1, 100}, {2, 125}}
+	fx = append(fx, fixed{"corpus: int and float histograms with schemas -4, 0, 3, 8 and custom buckets", 3, schemaSeries([]int{4, 5, 6, 7, 1}), []qparams{
+		{name: "schemas-tsdb", mint: 0, maxt: 1000, ms: all, maxBytes: 1 << 20, probes: schemaProbes},
+		{name: "schemas-tsdb-untrimmed-cut", mint: 105, maxt: 125, ms: all, maxBytes: 1 << 20, untrimmed: true, probes: schemaProbes},
+	}})
 	for i, c := range fx {
 		dir, err := os.MkdirTemp(f.Out, "c42corpus")
 		if err != nil {
@@ -1042,7 +1163,7 @@ func runCorpus(f gallina.Flags, meta *gallina.Meta, cf *gallina.CaseFile, rg *ri
 			if p.k == 0 {
 				_, err = app.Append(0, p.l, p.t, p.v)
 			} else {
-				h, fh := genHist(p.k, p.i, 0)
+				h, fh := genHist(p.k, p.i&0xffffffff, int(p.i>>32))
 				_, err = app.AppendHistogram(0, p.l, p.t, h, fh)
 			}
 			if err != nil {
@@ -1063,7 +1184,159 @@ func runCorpus(f gallina.Flags, meta *gallina.Meta, cf *gallina.CaseFile, rg *ri
 		db.Close()
 		os.RemoveAll(dir)
 	}
+	// ... and the reserved higher resolutions 9, 12, 30, 52 (plus 8 and a float series) from a
+	// foreign serving storage: the TSDB refuses them, the wire and the chunk format carry them,
+	// and the client has to reduce them to schema 8 in both response types
+	mq := &mockQueryable{}
+	bySeries := map[string]*mockSeries{}
+	hi := schemaSeries([]int{9, 12, 30, 52, 7})
+	fl := labels.FromStrings("__name__", "m0", "job", "c", "inst", "22")
+	for j := int64(0); j < 4; j++ {
+		hi = append(hi, pend{l: fl, t: 100 + 10*j, v: float64(j) + 0.5})
+	}
+	var times []int64
+	for _, p := range hi {
+		ms := bySeries[p.l.String()]
+		if ms == nil {
+			ms = &mockSeries{l: p.l}
+			bySeries[p.l.String()] = ms
+			mq.series = append(mq.series, ms)
+		}
+		x := msample{t: p.t, f: p.v}
+		if p.k != 0 {
+			x.h, x.fh = genHist(p.k, p.i&0xffffffff, int(p.i>>32))
+		}
+		ms.s = append(ms.s, x)
+		times = append(times, p.t)
+	}
+	sort.Slice(mq.series, func(i, j int) bool { return labels.Compare(mq.series[i].l, mq.series[j].l) < 0 })
+	sort.Slice(times, func(i, j int) bool { return times[i] < times[j] })
+	st := &store{qa: mq, desc: "corpus: foreign storage, int and float histograms with schemas 9, 12, 30, 52, 8", times: times, names: []string{"m0", "m1"}, jobs: []string{"a", "b", "c"}}
+	for qi, q := range []qparams{
+		{name: "schemas-above-8", mint: 0, maxt: 1000, ms: all, maxBytes: 1 << 20, probes: schemaProbes, freshProbes: true},
+		{name: "schemas-above-8-untrimmed-cut", mint: 105, maxt: 125, ms: all, maxBytes: 400, untrimmed: true, probes: schemaProbes, freshProbes: true},
+		{name: "schemas-above-8-ext", mint: 101, maxt: 1000, ms: []*labels.Matcher{labels.MustNewMatcher(labels.MatchEqual, "__name__", "m0")}, maxBytes: 1 << 20, ext: labels.FromStrings("zone", "x"), sortSeries: true, probes: schemaProbes, freshProbes: true},
+		{name: "schemas-above-8-iterated-twice", mint: 0, maxt: 1000, ms: []*labels.Matcher{labels.MustNewMatcher(labels.MatchEqual, "job", "a")}, maxBytes: 1 << 20, probes: schemaProbes},
+	} {
+		if q.ext.IsEmpty() {
+			q.ext = labels.EmptyLabels()
+		}
+		runCase(f, meta, cf, rg, st, -100, gen.Fork(f.Seed, 2_000_000+qi), id, seen, &q)
+	}
 }
+
+// ---------------------------------------------------------------- a foreign serving storage
+
+// mockQueryable is a storage.SampleAndChunkQueryable over fixed in-memory series: it can hold
+// what a tsdb.DB refuses (histograms at the reserved resolutions 9..52).  The sample querier
+// trims to the range; the chunk querier encodes the (trimmed, or with DisableTrimming the
+// whole) series with storage.NewSeriesToChunkEncoder.
+type mockQueryable struct{ series []*mockSeries }
+
+type mockSeries struct {
+	l labels.Labels
+	s []msample
+}
+
+type msample struct {
+	t  int64
+	f  float64
+	h  *histogram.Histogram
+	fh *histogram.FloatHistogram
+}
+
+func (s msample) T() int64                      { return s.t }
+func (s msample) ST() int64                     { return 0 }
+func (s msample) F() float64                    { return s.f }
+func (s msample) H() *histogram.Histogram       { return s.h }
+func (s msample) FH() *histogram.FloatHistogram { return s.fh }
+func (s msample) Type() chunkenc.ValueType {
+	switch {
+	case s.h != nil:
+		return chunkenc.ValHistogram
+	case s.fh != nil:
+		return chunkenc.ValFloatHistogram
+	}
+	return chunkenc.ValFloat
+}
+
+func (s msample) Copy() chunks.Sample {
+	c := msample{t: s.t, f: s.f}
+	if s.h != nil {
+		c.h = s.h.Copy()
+	}
+	if s.fh != nil {
+		c.fh = s.fh.Copy()
+	}
+	return c
+}
+
+func (m *mockQueryable) Querier(mint, maxt int64) (storage.Querier, error) {
+	return &mockQuerier{m: m, mint: mint, maxt: maxt}, nil
+}
+
+func (m *mockQueryable) ChunkQuerier(mint, maxt int64) (storage.ChunkQuerier, error) {
+	return &mockChunkQuerier{mockQuerier{m: m, mint: mint, maxt: maxt}}, nil
+}
+
+type mockQuerier struct {
+	m          *mockQueryable
+	mint, maxt int64
+}
+
+func (q *mockQuerier) sel(whole bool, ms []*labels.Matcher) []storage.Series {
+	var out []storage.Series
+	for _, s := range q.m.series {
+		ok := true
+		for _, m := range ms {
+			ok = ok && m.Matches(s.l.Get(m.Name))
+		}
+		var in []chunks.Sample
+		overlap := false
+		for _, x := range s.s {
+			if x.t >= q.mint && x.t <= q.maxt {
+				overlap = true
+			}
+			if whole || (x.t >= q.mint && x.t <= q.maxt) {
+				in = append(in, x.Copy())
+			}
+		}
+		if ok && overlap {
+			out = append(out, storage.NewListSeries(s.l, in))
+		}
+	}
+	return out
+}
+
+func (q *mockQuerier) Select(_ context.Context, _ bool, _ *storage.SelectHints, ms ...*labels.Matcher) storage.SeriesSet {
+	return &listSeriesSet{l: q.sel(false, ms), i: -1}
+}
+
+func (*mockQuerier) LabelValues(context.Context, string, *storage.LabelHints, ...*labels.Matcher) ([]string, annotations.Annotations, error) {
+	return nil, nil, nil
+}
+
+func (*mockQuerier) LabelNames(context.Context, *storage.LabelHints, ...*labels.Matcher) ([]string, annotations.Annotations, error) {
+	return nil, nil, nil
+}
+func (*mockQuerier) Close() error { return nil }
+
+type mockChunkQuerier struct{ mockQuerier }
+
+func (q *mockChunkQuerier) Select(_ context.Context, _ bool, hints *storage.SelectHints, ms ...*labels.Matcher) storage.ChunkSeriesSet {
+	whole := hints != nil && hints.DisableTrimming
+	return storage.NewSeriesSetToChunkSet(&listSeriesSet{l: q.sel(whole, ms), i: -1})
+}
+
+type listSeriesSet struct {
+	l []storage.Series
+	i int
+}
+
+func (s *listSeriesSet) Next() bool                      { s.i++; return s.i < len(s.l) }
+func (s *listSeriesSet) At() storage.Series              { return s.l[s.i] }
+func (*listSeriesSet) Err() error                        { return nil }
+func (*listSeriesSet) Warnings() annotations.Annotations { return nil }
 
 func pickTime(r *gen.Rand, st *store) int64 {
 	if len(st.times) == 0 {
@@ -1083,6 +1356,9 @@ type qparams struct {
 	ext        labels.Labels
 	untrimmed  bool
 	probes     [][2]int64
+	// freshProbes: every Seek probe runs on a series object of its own (one more Read per
+	// probe), never on a series that was iterated before
+	freshProbes bool
 }
 
 func runCase(f gallina.Flags, meta *gallina.Meta, cf *gallina.CaseFile, rg *rig, st *store, si int, r *gen.Rand, id *int, seen map[string]bool, preset *qparams) {
@@ -1143,9 +1419,12 @@ func runCase(f gallina.Flags, meta *gallina.Meta, cf *gallina.CaseFile, rg *rig,
 	if preset != nil {
 		mint, maxt, ms, maxBytes, sortSeries, ext, untrimmed = preset.mint, preset.maxt, preset.ms, preset.maxBytes, preset.sortSeries, preset.ext, preset.untrimmed
 	}
-	var qa storage.SampleAndChunkQueryable = st.db.DB
+	qa := st.qa
+	if qa == nil {
+		qa = st.db.DB
+	}
 	if untrimmed {
-		qa = untrimmedQueryable{st.db.DB}
+		qa = untrimmedQueryable{qa}
 	}
 
 	// ---- direct queries on the storage (what the handler itself will run: Select with
@@ -1208,8 +1487,16 @@ func runCase(f gallina.Flags, meta *gallina.Meta, cf *gallina.CaseFile, rg *rig,
 	if preset != nil && preset.probes != nil {
 		fixedProbes = preset.probes
 	}
+	fresh := preset != nil && preset.freshProbes
+	if fresh {
+		probeRand = nil
+	}
 	sampled := rg.read(rg.sampled, pq, sortSeries)
 	chunked := rg.read(rg.chunked, pq, sortSeries)
+	if fresh {
+		rg.probeFresh(rg.sampled, pq, sortSeries, &sampled, preset.probes, true)
+		rg.probeFresh(rg.chunked, pq, sortSeries, &chunked, preset.probes, false)
+	}
 	frames, err := rg.rawFrames(pq)
 	if err != nil {
 		panic(fmt.Sprintf("raw frames: %v", err))
@@ -1284,6 +1571,12 @@ func runCase(f gallina.Flags, meta *gallina.Meta, cf *gallina.CaseFile, rg *rig,
 		meta.Nontrivial++
 	}
 	hit(untrimmed, "untrimmed-chunks-server")
+	if hasH || hasFH {
+		for v, name := range map[int]string{1: "custom-buckets", 4: "schema-4neg", 5: "schema-0", 6: "schema-3", 7: "schema-8"} {
+			hit(st.hv[v], "hist-store-"+name)
+		}
+		hit(st.qa != nil, "hist-schema-above-8")
+	}
 	hit(hasNegZero(direct), "negative-zero-float")
 
 	// ---- which half of the statement fails, and is it one of the explained shapes
@@ -1350,8 +1643,21 @@ func runCase(f gallina.Flags, meta *gallina.Meta, cf *gallina.CaseFile, rg *rig,
 		// the cursor of the other value type from -1 to 0, so its first sample is skipped
 		if mixed {
 			why = append(why, "sampled-seek-mixed-series")
+		} else if st.qa != nil && !fresh && strings.Contains(strings.Join(sampled.Seek, " "), "observations found in buckets") {
+			// known shape: a second iterator over a series of the sampled response whose histograms
+			// have a schema above 8: setCurrentHistogram reduces the resolution IN PLACE on slices
+			// shared with the decoded protobuf message, so the second pass reduces already reduced
+			// buckets and the result does not validate.  Aliasing is outside the model: judged here,
+			// and these probes are not handed to Coq.
+			why = append(why, "sampled-high-schema-reiteration")
+			sampled.Probes = nil
+			meta.GoViol = append(meta.GoViol, gallina.GoViolation{ID: fmt.Sprint(*id), Shape: strings.Join(why, "+"),
+				What: fmt.Sprintf("second iteration over a sampled-response series with histogram schema > 8 fails: %q", sampled.Seek[0])})
 		} else {
 			why = append(why, "sampled-seek")
+			if os.Getenv("VERIF_C42_DEBUG") != "" {
+				fmt.Fprintf(os.Stderr, "case %d sampled seek: %q\n", *id, sampled.Seek)
+			}
 		}
 	}
 	if len(chunked.Seek) > 0 {
